@@ -32,6 +32,7 @@ type randCase struct {
 	Acl     bool  `json:"acl"`
 	Kv      bool  `json:"kv"`
 	Bulk    bool  `json:"bulk"` // large space: bulk edits and bulk draining between the rounds
+	NoSpace bool  `json:"nospace"` // p2 does not hold the space at the start (ErrSpaceMissing -> SpacePush)
 }
 
 var changeNames = []string{"c1", "c2", "c3", "c4"}
@@ -54,6 +55,7 @@ type obsState struct {
 	Rnd    map[string]obsRound            `json:"rnd"`
 	Tasks  []task                         `json:"tasks"`
 	Hashok map[string]bool                `json:"hashok"`
+	Space  map[string]bool                `json:"space"`
 }
 type traceLine struct {
 	A   string         `json:"a"`
@@ -69,11 +71,12 @@ type traceLine struct {
 // observe: the projection of the real state that the specification talks about
 func (w *world) observe(ids []string) *obsState {
 	o := &obsState{Idx: map[string]map[string][]string{}, Store: map[string]map[string]obsEntry{}, Online: map[string]bool{},
-		Pendn: map[string]int{}, Rnd: map[string]obsRound{}, Tasks: []task{}, Hashok: map[string]bool{}}
+		Pendn: map[string]int{}, Rnd: map[string]obsRound{}, Tasks: []task{}, Hashok: map[string]bool{}, Space: map[string]bool{}}
 	for _, p := range w.order {
 		n := w.nodes[p]
 		v, top := n.index()
-		o.Hashok[p] = n.persistedHash() == hex.EncodeToString(top)
+		o.Space[p] = n.hasSpace()
+		o.Hashok[p] = !n.hasSpace() || n.persistedHash() == hex.EncodeToString(top)
 		dec := w.decode(v)
 		o.Idx[p] = map[string][]string{}
 		o.Store[p] = map[string]obsEntry{}
@@ -145,6 +148,13 @@ func (r *randRun) step() {
 	p := r.pick(w.order)
 	n := w.nodes[p]
 	tag := fmt.Sprintf("rand/p%d/n%d/", r.c.Peers, sizeClass(r.c.N))
+	if !n.hasSpace() {
+		if r.rnd.Intn(4) == 0 {
+			w.flip(p)
+			r.emit("Flip", p, "-", "", "", nil)
+		}
+		return
+	}
 	switch x := r.rnd.Intn(100); {
 	case x < 14: // local change
 		id := r.pick(r.ids)
@@ -192,6 +202,18 @@ func (r *randRun) step() {
 		if n.running {
 			return
 		}
+		if id := r.pick(r.ids); r.rnd.Intn(2) == 0 && n.has(id) && !n.tomb(id) {
+			e, _ := n.entry(id)
+			have := w.setOf(id, e.Heads)
+			for _, c := range changeNames {
+				if !contains(have, c) {
+					w.restartEdit(j, p, id, c)
+					r.emit("RestartEdit", p, "-", id, c, nil)
+					j.rep.Case(tag + "RestartEdit")
+					return
+				}
+			}
+		}
 		w.restart(j, p)
 		r.emit("Restart", p, "-", "", "", nil)
 		j.rep.Case(tag + "Restart")
@@ -220,6 +242,10 @@ func (r *randRun) step() {
 			res := w.roundCheck(j, p)
 			r.emit("RoundCheck", p, st.Cur, "", "", map[string]any{"res": res})
 			j.rep.Case(tag + "RoundCheck/" + res)
+		case "push":
+			res := w.roundPush(j, p)
+			r.emit("RoundPush", p, st.Cur, "", "", map[string]any{"res": res})
+			j.rep.Case(tag + "RoundPush/" + res)
 		case "diff":
 			res, reqs := w.roundDiff(j, p)
 			r.emit("RoundDiff", p, st.Cur, "", "", map[string]any{"res": res, "reqs": reqs})
@@ -343,7 +369,11 @@ func runRandom(rep *vfutil.Report, c randCase, tw *vfutil.TraceWriter) {
 	}
 	j := &judge{rep: rep, replay: map[string]any{"kind": "random", "random": c}, tag: fmt.Sprintf("rand/p%d/n%d", c.Peers, c.N)}
 	r.j = j
-	w := newWorld(peers, peerSeqAll(peers), acl, kv)
+	var noSpace []string
+	if c.NoSpace {
+		noSpace = []string{"p2"}
+	}
+	w := newWorld(peers, peerSeqAll(peers), acl, kv, noSpace...)
 	defer w.close()
 	r.w = w
 	if tw != nil {
@@ -354,6 +384,9 @@ func runRandom(rep *vfutil.Report, c randCase, tw *vfutil.TraceWriter) {
 	if c.Bulk {
 		for _, p := range w.order {
 			n := w.nodes[p]
+			if !n.hasSpace() {
+				continue
+			}
 			n.stop()
 			for _, id := range r.trees {
 				if rnd.Intn(100) >= c.Prefill {
@@ -387,6 +420,7 @@ func randomCases(seed int64, thorough bool) (cs []randCase) {
 	for rep := 0; rep < vfutil.Tier(2, 6); rep++ {
 		add(randCase{Peers: 2, N: 40, Prefill: 60, Ops: 150, Acl: true, Kv: true, Bulk: true})
 		add(randCase{Peers: 3, N: 60, Prefill: 50, Ops: 200, Acl: true, Bulk: true})
+		add(randCase{Peers: 2 + rep%2, N: 30, Prefill: 70, Ops: 120, Acl: true, Kv: true, Bulk: true, NoSpace: true})
 	}
 	// the index is split (more than 256 elements): the diff takes several request rounds
 	add(randCase{Peers: 2, N: 700, Prefill: 70, Ops: 120, Acl: true, Kv: true, Bulk: true})
@@ -433,6 +467,7 @@ func TestRecord(t *testing.T) {
 		{Peers: 2, N: 3, Ops: 70, Acl: true, Kv: true},
 		{Peers: 3, N: 4, Ops: 90, Acl: true},
 		{Peers: 2, N: 12, Ops: 120},
+		{Peers: 2, N: 3, Ops: 70, Acl: true, NoSpace: true},
 	}
 	events := 0
 	for ci, c := range confs {
@@ -449,7 +484,7 @@ func TestRecord(t *testing.T) {
 		if corrupt != "" {
 			corruptTrace(path, corrupt)
 		}
-		consts := map[string]any{"peers": []string{"p1", "p2", "p3"}[:c.Peers], "trees": treeIds(c.N), "acl": c.Acl, "kv": c.Kv, "changes": changeNames}
+		consts := map[string]any{"peers": []string{"p1", "p2", "p3"}[:c.Peers], "trees": treeIds(c.N), "acl": c.Acl, "kv": c.Kv, "changes": changeNames, "nospace": c.NoSpace}
 		b, _ := json.Marshal(consts)
 		if err := os.WriteFile(filepath.Join(dir, name+".consts.json"), b, 0o644); err != nil {
 			hpanic("%v", err)
